@@ -59,5 +59,17 @@ for pid in sorted(os.listdir('/verif/seeded')):
 rows.append('')
 rows.append(f'{det} of {tot} seeded changes are detected by the final checks.')
 put('SEEDED', '\n'.join(rows))
+# ---- costs
+tp = '/verif/timings.json'
+if os.path.exists(tp):
+    t = json.load(open(tp))
+    rows = ['| property | quick: wall / evaluations | thorough (native + sanitizer stages): wall / evaluations of the native part | sanitizer stages (evaluations under the tool) |', '|---|---|---|---|']
+    for pid in sorted(t):
+        q = t[pid].get('quick', {}); th = t[pid].get('thorough', {})
+        san = '; '.join(re.sub(r'^sanitize \S+ ', '', l).replace('reports=0 violations=0 ', '') for l in th.get('sanitize', [])) or '—'
+        rows.append(f"| {pid} | {q.get('wall_s','?')} s / {q.get('evaluations','?')} | {th.get('wall_s','?')} s / {th.get('evaluations','?')} | {san} |")
+    rows.append('')
+    rows.append('(measured on this 16-core sandbox by `tools/time_all.sh`; wall times include the incremental build check of `./check`)')
+    put('COSTS', '\n'.join(rows))
 open(D, 'w').write(s)
 print('tables regenerated:', tot, 'seeded,', len(k), 'findings')
